@@ -410,6 +410,18 @@ def model_call(info, args):
     return None
 
 
+def atom_variant(a):
+    """variant name selected by a discriminant atom (also through the `otherwise` edge when one variant remains)"""
+    c, v = a[1], a[2]
+    if c[0] != "discr":
+        return None
+    names = dict(c[2])
+    if isinstance(v, int):
+        return names.get(v)
+    rest = [n for k, n in c[2] if k not in v[1]]
+    return rest[0] if len(rest) == 1 else None
+
+
 def walk(body, crate=None, inline=(), args=None, max_paths=3000):
     return Walker(body, crate, inline, max_paths).run(args)
 
